@@ -35,11 +35,13 @@ def enc(s):
 
 def render_pat(p):
   lit = ''.join(ALPHA[c - 1] for c in p['lit']).replace('.', '\\.')
-  return dict(sub=lit, prefix='^' + lit, suffix=lit + '$', exact='^' + lit + '$')[p['k']]
+  # 'any*' kinds match every name with an EMPTY match (zero width): '^', an optional prefix, a starred letter
+  return dict(sub=lit, prefix='^' + lit, suffix=lit + '$', exact='^' + lit + '$', anystart='^', anyopt='^(' + lit + ')?',
+              anystar='x*', anylook='^(?!zz' + lit + ')')[p['k']]
 
 
 def gen_pat(rng):
-  return dict(k=rng.choice(['sub', 'sub', 'prefix', 'suffix', 'exact']),
+  return dict(k=rng.choice(['sub', 'sub', 'prefix', 'suffix', 'exact', 'sub', 'prefix', 'suffix', 'exact', 'anystart', 'anyopt', 'anystar', 'anylook']),
               lit=enc(''.join(rng.choice('abcd.') for _ in range(rng.randint(1, 3)))))
 
 
@@ -161,6 +163,12 @@ def run(ctx):
           if a['method']:
             fh.write('aggregationMethod = %s\n' % METHODS[a['method']])
           fh.write('\n')
+      # the files are REPLACED between cases with preserved modification times (config management, mv, rsync -t):
+      # what counts is the content in place when the 60 s reload task runs
+      for fn in ('storage-schemas.conf', 'storage-aggregation.conf'):
+        os.utime(os.path.join(conf, fn), (1000.0, 1000.0))
+      if not agg and len(recs) % 2:
+        os.unlink(os.path.join(conf, 'storage-aggregation.conf'))      # the optional file is removed
       db = DB()
       state.database = db
       writer.reloadStorageSchemas()
